@@ -34,7 +34,7 @@ def run(ck):
     ck.proof = vf.prove("Properties_C17")
     q = ck.quick(); fails = []
     runs = 0
-    for backend in (("serial",) if q else ("serial", "sse", "avx2")):
+    for backend in ("serial", "sse", "avx2"):
         exe, out = build([], "h_conc_" + backend, backend)
         if not exe:
             ck.violation("h_conc does not compile (%s)" % backend, {"compiler_output": out[-3000:]}, tag="build_" + backend, no_input=True); continue
@@ -42,7 +42,8 @@ def run(ck):
         ck.cov.setdefault("writable_statics", {})[backend] = seen
         for b in bad[:3]:
             fails.append(("static-state audit (%s build)" % backend, "nm -C %s" % os.path.basename(exe), "writable static storage outside the modelled immutable set: %s" % b))
-        for T, R in ((2, 3), (8, 3), (16, 2)) + (() if q else ((16, 20), (4, 50))):
+        # quick: the SIMD builds get the static-state audit and one workload run (their kernels may hold state the scalar build lacks)
+        for T, R in (((2, 3), (8, 3), (16, 2)) if backend == "serial" or not q else ((4, 2),)) + (() if q else ((16, 20), (4, 50))):
             rc, o, e = vf.run_io([exe, str(T), str(R)], "", timeout=600); runs += 1
             if rc != 0 or "CHANGED" in o or "CORRUPTED" in o or any(x.split("=")[1].split("/")[0] != x.split("/")[1] for x in o.split() if x.startswith("ok=")):
                 fails.append(("threads vs sequential (%s build)" % backend, "h_conc %d %d" % (T, R), (o.strip() + " " + e[-300:])[:400]))
